@@ -49,6 +49,28 @@ Theorem C06_complete_message : forall max s,
   frames max s = FMsg ty (firstn (Z.to_nat len - 19) (skipn 19 s)) :: frames max (skipn (Z.to_nat len) s).
 Proof. exact frames_message. Qed.
 
+(* ---- the read step of Peer._main: a 100 ms wait around the read, repeated.  `main_reader` follows
+   what Peer._read_message_or_nop does (READ_KEPT is regenerated from its source): a schedule is any
+   interleaving of reads (`Recv k`: the next recv returns at most k+1 bytes) and expired waits
+   (`Timeout`).  Whatever the interleaving, as soon as it contains enough reads to drain the stream,
+   the messages handed to the session are the RFC framing of the stream. *)
+Theorem C06_main_loop_reader : forall max stream evs,
+  (length stream <= recvs evs)%nat ->
+  map conv (main_reader max stream evs) = frames max stream.
+Proof. exact timed_reader_is_frames. Qed.
+
+Theorem C06_timeouts_irrelevant : forall max stream evs1 evs2,
+  filter is_recv evs1 = filter is_recv evs2 ->
+  main_reader max stream evs1 = main_reader max stream evs2.
+Proof. exact timed_reader_timeout_independent. Qed.
+
+(* the statement is not vacuous, and it is about the waiting discipline: a reader which drops its
+   partial message when the wait expires (what asyncio.wait_for does to the read) loses bytes *)
+Theorem C06_cancelled_read_refuted :
+  timed_reader true 4096 (ka ++ ka) [Recv 9; Timeout; Recv 100; Recv 100] = [OMsg 4 []; OMsg 4 []] /\
+  timed_reader false 4096 (ka ++ ka) [Recv 9; Timeout; Recv 100; Recv 100] = [ONotify 1 1].
+Proof. exact cancelled_read_loses_bytes. Qed.
+
 (* the two maxima the connection can hold (Negotiated.msg_size is C07's theorem) *)
 Theorem C06_sizes : INITIAL_SIZE = 4096 /\ EXTENDED_SIZE = 65535.
 Proof. split; reflexivity. Qed.
@@ -68,4 +90,7 @@ Print Assumptions C06_bad_marker.
 Print Assumptions C06_bad_length.
 Print Assumptions C06_unknown_type.
 Print Assumptions C06_complete_message.
+Print Assumptions C06_main_loop_reader.
+Print Assumptions C06_timeouts_irrelevant.
+Print Assumptions C06_cancelled_read_refuted.
 Print Assumptions C06_sizes.
